@@ -23,6 +23,11 @@ BRANCHING = CONTINUOUS + ["dgor_dpressure_Standing", "oil_compressibility_Standi
 def check(ctx):
     P = ctx.P
     ctx.assume(POSITIVE)
+    # ---- C12-h positional semantics of numpy's masked-assignment helpers (shared with C11-i / C13-h)
+    from .dtypes import check_masked_calls
+
+    check_masked_calls(ctx, "C12-h", ["bluebonnet.fluids.oil", "bluebonnet.fluids.fluid"])
+
     pb = only(run(ctx, OIL + "pressure_bubblepoint_Standing"), "pressure_bubblepoint_Standing").value.nf
     fpb = P.func(OIL + "pressure_bubblepoint_Standing")
     PBQ = OIL + "pressure_bubblepoint_Standing"
